@@ -2,10 +2,12 @@ import JivaVerif.Drv.Replica
 import JivaVerif.Drv.Controller
 import JivaVerif.Drv.Rpc
 import JivaVerif.Drv.Rest
+import JivaVerif.Drv.Crash
 def main (args : List String) : IO Unit := do
   match args with
   | ["replica"] => Jiva.Drv.replicaMain
   | ["ctl"] => Jiva.Drv.ctlMain
   | ["rpc"] => Jiva.Drv.rpcMain
   | ["rest"] => Jiva.Drv.restMain
-  | _ => IO.eprintln "usage: drv replica|ctl|rpc"
+  | ["crash"] => Jiva.Drv.crashMain
+  | _ => IO.eprintln "usage: drv replica|ctl|rpc|rest|crash"
